@@ -22,6 +22,7 @@ inductive Op
   | readDone           -- the pending read gets the bytes that arrived
   | excess             -- the raw read that carried the finish request carried further (foreign, plaintext) bytes too
   | foreign            -- bytes that are not ciphertext under σ arrive (an on-path adversary inserts a plaintext request)
+  | event              -- another goroutine (the application changing a value, a keep-alive) writes an EVENT to this connection
 deriving DecidableEq, Repr
 
 inductive Wire | empty | cipher | foreign
@@ -37,18 +38,32 @@ structure St where
   awaiting : Bool                -- the request was received completely, its response is not written yet
   closed : Bool                  -- the accessory closed the connection
   foreignPlain : Bool            -- foreign bytes were handed to net/http as plaintext (it will serve them as a request)
+  queued : Nat                   -- events kept back until the response is written
+  evOut : Nat                    -- events written to the connection
+  evDuring : Bool                -- an event was written between the request and its response
 deriving DecidableEq, Repr
 
-def init : St := ⟨false, false, none, none, .empty, none, true, false, false⟩
+def init : St := ⟨false, false, none, none, .empty, none, true, false, false, 0, 0, false⟩
 
 /-- `fixed = true`: the code after the F18 repair. `fixed = false`: Decrypter() promoted the pending cryptographer as
     a side effect (so whichever Read ran first after SetCryptographer switched the encrypter too), and a read that was
     already waiting handed whatever arrived to the caller as plaintext.
+    `queue = true`: the code after the F31 repair — events are written through `WriteEvent`, which keeps them back while a
+    request is served and writes them after the response.
     `strict = true`: the code after the F19 repair — on a plaintext connection, bytes that follow a complete request
     before its response was written are refused and the connection is closed. -/
-def step (fixed strict : Bool) (s : St) (o : Op) : St :=
+def step (fixed strict queue : Bool) (s : St) (o : Op) : St :=
   if s.closed then s else
   match o with
+  | .event =>
+    if queue then
+      -- Connection.WriteEvent: kept back while a request is served (http.ConnState active … idle)
+      if s.awaiting then { s with queued := s.queued + 1 } else { s with evOut := s.evOut + 1 }
+    else
+      -- before the F31 repair an event is an ordinary Write: it goes out at once, and — like every write — it activates a
+      -- pending cryptographer (session.didWrite)
+      let s1 := { s with evOut := s.evOut + 1, evDuring := s.evDuring || s.awaiting }
+      if fixed then { s1 with cur := s1.cur || s1.next, next := false } else s1
   | .readStart =>
     if s.pending.isSome then s else
     if fixed then { s with pending := some (s.cur || s.next) }
@@ -58,7 +73,7 @@ def step (fixed strict : Bool) (s : St) (o : Op) : St :=
   | .setCrypt => if s.awaiting then { s with next := true } else s     -- the handler runs before its response
   | .writeResp =>
     if s.respEncrypted.isSome then s else
-    let s1 := { s with respEncrypted := some s.cur, awaiting := false }
+    let s1 := { s with respEncrypted := some s.cur, awaiting := false, evOut := s.evOut + s.queued, queued := 0 }
     if fixed then { s1 with cur := s1.cur || s1.next, next := false } else s1
   | .peerSends => if s.respEncrypted.isSome && s.wire == .empty then { s with wire := .cipher } else s
   | .foreign => if s.wire == .empty then { s with wire := .foreign } else s
@@ -79,7 +94,7 @@ def step (fixed strict : Bool) (s : St) (o : Op) : St :=
         else if strict && s.awaiting then { s with pending := none, wire := .empty, closed := true }
         else { s with pending := none, wire := .empty, foreignPlain := true }
 
-def run (fixed strict : Bool) (ops : List Op) : St := ops.foldl (step fixed strict) init
+def run (fixed strict queue : Bool) (ops : List Op) : St := ops.foldl (step fixed strict queue) init
 
 /-- schedules of interest: the handler's two steps in order, the peer after the response, the read's two steps in
     order with `readDone` after `peerSends`; `readStart` anywhere -/
